@@ -25,3 +25,50 @@ Print Assumptions C01_import_names_distinct.
 Theorem C01_import_names_legal : forall n p, (exists t, local_name n p = "i"%char :: t) /\ is_alpha "i"%char = true /\ Forall ident_char (local_name n p).
 Proof. exact local_name_go_identifier. Qed.
 Print Assumptions C01_import_names_legal.
+
+(** ---- lexical safety of the rendered file (Proofs/Render2Proofs.v).  [scan] models the Go scanner (code / string / raw string /
+    rune / line comment / block comment); a line is [line_ok] when it contains no newline and leaves no literal or block comment
+    open, so user text cannot change how the following lines are read.  The only raw user text that reaches code is the argument
+    text of function tokens %fn(...)% ([input_vals_ok_lex]: it must itself be lexically closed); everything else is either
+    quoted with %+q, or a capture of a validated language, or a generated alias. ---- *)
+From GV Require Proofs.Render2Proofs.
+Module R2 := Proofs.Render2Proofs.
+
+(** %+q never breaks out of its string literal, whatever the bytes *)
+Theorem C01_quote_is_a_go_string_literal : forall x : str,
+  exists y, Base.Quote.quote x = [Proofs.LangsProofs.dq] ++ y ++ [Proofs.LangsProofs.dq] /\ R2.go_string_interior y = true.
+Proof. exact R2.C01_quote_safe. Qed.
+Print Assumptions C01_quote_is_a_go_string_literal.
+
+(** every line of the header comment sections is a comment line, for every accepted input *)
+Theorem C01_header_comments_are_comments : forall B i o c,
+  Model.Runner.compile Gen.EnvGen.the_env B i = ((o, None), c) -> R2.prims_ok i ->
+  Forall R2.comment_line (Model.Render.params_comment (o_params o)) /\ Forall R2.comment_line (Model.Render.services_comment o).
+Proof. exact R2.C01_header_comments_safe. Qed.
+Print Assumptions C01_header_comments_are_comments.
+
+(** every name and expression emitted outside literals and comments belongs to its validated language; import aliases are Go identifiers *)
+Theorem C01_emitted_names_in_their_languages : forall B i o c,
+  Model.Runner.compile Gen.EnvGen.the_env B i = ((o, None), c) -> R2.prims_ok i ->
+  R2.out_lang (fun _ => True) o /\ (forall p a, In (p, a) (is_imports (cs_imports c)) -> Proofs.LangsProofs.is_go_token a = true).
+Proof. exact R2.C01_emitted_names_table. Qed.
+Print Assumptions C01_emitted_names_in_their_languages.
+
+(** the whole file, normal and stub mode: every line is lexically closed, every import line has the shape alias "path" *)
+Theorem C01_rendered_file_lexically_safe : forall B i o c stub bi,
+  Model.Runner.compile Gen.EnvGen.the_env B i = ((o, None), c) -> R2.input_vals_ok_lex Gen.EnvGen.the_env i -> R2.over R2.notnl bi ->
+  R2.out_lang R2.neutral o /\
+  Forall R2.line_ok (fst (Model.Render.render Gen.EnvGen.the_env stub bi o (cs_imports c))) /\
+  Forall R2.import_line (map (fun kv => snd kv ++ s " """ ++ fst kv ++ s """")
+                             (imports_sorted (snd (Model.Render.render Gen.EnvGen.the_env stub bi o (cs_imports c))))).
+Proof. exact R2.C01_rendered_file_lexically_safe. Qed.
+Print Assumptions C01_rendered_file_lexically_safe.
+
+(** paths registered from meta.imports carry no quote (the defect D14 was found while proving this) *)
+Theorem C01_alias_targets_unquoted : forall B i es st',
+  validate Gen.EnvGen.the_env B i = None ->
+  Forall (fun kv => Proofs.LangsProofs.is_base_import (sanitize_path (snd kv)) = true /\ ~ In Proofs.LangsProofs.dq (sanitize_path (snd kv))) (m_imports (i_meta i)) /\
+  (register_imports (sorted_entries (m_imports (i_meta i))) ist0 = (es, st') ->
+   forall a p, In (a, p) (is_prefixes st') -> Proofs.LangsProofs.is_base_import p = true /\ ~ In Proofs.LangsProofs.dq p).
+Proof. exact R2.C01_import_paths_unquoted. Qed.
+Print Assumptions C01_alias_targets_unquoted.
